@@ -530,6 +530,18 @@ func (g *gstate) proofOp() {
 		mut = fmt.Sprintf("index:%d", d)
 	case 4:
 		o := g.nodes[g.r.Intn(len(g.nodes))]
+		if g.r.Chance(50) {
+			// prefer a competitor at the SAME height (a sibling that was marked, trimmed or pruned keeps its height)
+			var same []*gnode
+			for _, x := range g.nodes {
+				if x.height == c.height && x.id != c.id {
+					same = append(same, x)
+				}
+			}
+			if len(same) > 0 {
+				o = same[g.r.Intn(len(same))]
+			}
+		}
 		if o.id != 0 && o.id != c.id {
 			mut = fmt.Sprintf("other:%d", o.id)
 			if form == "both" && g.r.Chance(50) {
@@ -611,6 +623,11 @@ func gen(seed uint64, scripts int, tier string, profile string) {
 			pRefuse, pClean = 10, 2
 		case "proof":
 			pProof, pClean, pSL = 25, 3, 2
+			g.blocks = true
+		case "proofmark":
+			// proofs between marks, cleans and reloads: hashes that left the branches but stay in the long-lived map
+			pProof, pMark, pClean, pSL = 20, 5, 4, 2
+			pForkFirst = 1
 			g.blocks = true
 		case "mixed":
 			pClean, pSL, pCrash, pMark, pLoc, pRefuse = 4, 3, 1, 2, 3, 2
